@@ -19,6 +19,17 @@ func init() {
 func runC20(a *A) {
 	a.Rule("ownmap/caller-map", 6, func() { a.ruleCallerMap(map[string]string{}) })
 	a.Rule("ownmap/singleton-state", 3, func() { a.ruleSingletonState() })
+	a.Rule("flow/pooled-map-cleared", 1, func() {
+		n := 0
+		for _, fn := range a.ModFuncs {
+			if fn.Pkg != nil && !strings.Contains(fn.Pkg.Pkg.Path(), "/examples/") {
+				n += a.rulePooledMapCleared(fn)
+			}
+		}
+		if n == 0 {
+			a.Und("pooled-map-cleared", token.NoPos, "no map taken from a sync.Pool found in the module")
+		}
+	})
 	a.Rule("ownmap/shared-state", 5, func() {
 		table := map[string]string{
 			"cep.baseMapPool":                    "sync.Pool of scratch maps for DEFINE evaluation; every map is cleared when taken",
